@@ -87,6 +87,33 @@ def c14_r2(ctx: Ctx, rule):
         if not ok:
             res.fail(rule.id, "inferred-sentinel::creation::%s" % norm(c.args[0]), ctx.loc(q, c), "inferred nodes are created with bundle %s instead of None" % norm(c.args[0]),
                      "graph_to_prov takes inferred endpoint nodes for declared records: the round trip invents elements")
+    # the constructors carry the sentinel through unchanged: in every __init__ of the element classes' MRO the bundle parameter is
+    # never rebound, is handed on to the next __init__ as it is, and is what ends up in the field the `bundle` property returns
+    ELEM = M + ".ProvElement"
+    chain = []
+    for c in ctx.p.mro(ELEM):
+        iq = ctx.p.classes[c].methods.get("__init__") if c in ctx.p.classes else None
+        if iq:
+            chain.append(iq)
+    if not chain:
+        raise AnalysisError("no __init__ in the MRO of ProvElement")
+    stored = False
+    for iq in chain:
+        ifi = ctx.fn(iq)
+        bp = ifi.params[1] if len(ifi.params) > 1 else None
+        rebound = [n for n in walk_function(ifi.node) if isinstance(n, (ast.Assign, ast.AugAssign, ast.AnnAssign, ast.NamedExpr))
+                   and any(isinstance(x, ast.Name) and x.id == bp for t in (n.targets if isinstance(n, ast.Assign) else [n.target]) for x in ast.walk(t))]
+        forwards = [c for c in calls_in(ifi.node) if call_name(c) == "__init__" and any(isinstance(a, ast.Name) and a.id == bp for a in c.args)]
+        stores = [n for n in walk_function(ifi.node) if isinstance(n, ast.Assign) and isinstance(n.value, ast.Name) and n.value.id == bp and any(isinstance(t, ast.Attribute) and "bundle" in t.attr for t in n.targets)]
+        stored = stored or bool(stores)
+        ok = bp is not None and not rebound and (forwards or stores)
+        res.ob("%s: the bundle parameter `%s` is never rebound and is %s: %s" % (short(iq), bp, "stored in the field" if stores else "handed to the next __init__", bool(ok)))
+        if not ok:
+            res.fail(rule.id, "inferred-sentinel::constructor::%s" % iq, ctx.loc(iq, (rebound or [ifi.node])[0]),
+                     "%s replaces or drops the bundle it was given (%s): a node created with bundle=None no longer has bundle None" % (short(iq), norm(rebound[0])[:50] if rebound else "not forwarded"),
+                     "used(a, ex:undeclared): graph_to_prov(prov_to_graph(d)) contains entity(ex:undeclared), which unified d never had")
+    if not stored:
+        raise AnalysisError("no __init__ in the MRO of ProvElement stores the bundle parameter")
     gq = GR + ".graph_to_prov"
     gf = ctx.fn(gq)
     tests = []
